@@ -148,6 +148,10 @@ type rtObs struct {
 	RErr string `json:"rerr"`
 	RPan string `json:"rpanic"`
 	Back []Val  `json:"back"`
+	// after the traversal (C07): Err() text, and whether 3 further Next calls all returned false
+	// with Err() unchanged
+	ErrAfter string `json:"errAfter"`
+	Sticky   bool   `json:"sticky"`
 }
 
 // roundtrip: write each forest with every writer mode, Finish, read the bytes back.
@@ -221,8 +225,16 @@ func cmdRead(in *bufio.Scanner, out *bufio.Writer) error {
 		}
 		o := rtObs{Idx: idx, Mode: mode, Out: c.Bytes, Back: []Val{}}
 		rerr, rpan, rsite := safely(func() error {
-			back, err := projectAll(ion.NewReaderBytes([]byte(c.Bytes)))
+			r := ion.NewReaderBytes([]byte(c.Bytes))
+			back, err := projectAll(r)
 			o.Back = back
+			o.ErrAfter = errString(r.Err())
+			o.Sticky = true
+			for k := 0; k < 3; k++ {
+				if r.Next() || errString(r.Err()) != o.ErrAfter {
+					o.Sticky = false
+				}
+			}
 			return err
 		})
 		if rpan {
